@@ -426,6 +426,77 @@ class FilePipeline(Part):
         return res
 
 
+class CliNetworks(Part):
+    name = "command_line_with_preserved_networks"
+    desc = "main() with every combination of --preserve-private-addresses / --preserve-addresses / --preserve-prefixes: the mapping as applied to the files (preserved addresses stay, the rest is mapped) is one prefix-preserving injection"
+
+    def __init__(self, tier, seed):
+        self.tier, self.seed = tier, seed
+
+    def cases(self):
+        return [{"salt": s, "B": B, "private": pr, "extra": ex, "prefixes": pf, "undo": u}
+                for s in ("saltForTest", "seed%d" % self.seed) for B in (0, 8) for pr in (False, True)
+                for ex in (None, "77.0.0.0/8", "11.11.0.0/16,200.7.6.5", "10.0.0.0/8")
+                for pf in (None, "0.0.0.0/1,128.0.0.0/2,192.0.0.0/3,224.0.0.0/4", "200.0.0.0/5")
+                for u in (False, True) if (pr or ex) and not (u and s != "saltForTest")]
+
+    def run(self, cfg):
+        import os
+        import shutil
+
+        from mc import seams
+        from netconan.netconan import main
+
+        res = Res()
+        nets = [ipaddress.ip_network(n) for n in ((["10.0.0.0/8", "172.16.0.0/12", "192.168.0.0/16"] if cfg["private"] else [])
+                                                   + (cfg["extra"].split(",") if cfg["extra"] else []))]
+        plist = None if cfg["prefixes"] is None else cfg["prefixes"].split(",")
+        forgot = ipdom.make_v4(["md5", cfg["salt"]], cfg["B"], plist, None)
+        addrs = set(ipdom.v4_window(self.seed, 3)[::5])
+        for n in nets:
+            lo, hi = int(n.network_address), int(n.broadcast_address)
+            for x in (lo, hi, lo + 1, (lo + hi) // 2, lo - 1, hi + 1, hi + 2):
+                addrs.add(x & 0xFFFFFFFF)
+            for y in {lo, hi, (lo + hi) // 2, lo + (hi - lo) // 3}:
+                # what an anonymizer that forgot the block would send into it (both directions)
+                addrs.add(forgot.deanonymize(y))
+                addrs.add(forgot.anonymize(y))
+        addrs = sorted(a for a in addrs if not refs.is_mask32(a))
+        root = seams.scratch_dir("c01c")
+        try:
+            seams.write_tree(os.path.join(root, "in"), {"a.cfg": "".join("h %s e\n" % refs.v4_text(a) for a in addrs)})
+            argv = ["-u" if cfg["undo"] else "-a", "-s", cfg["salt"], "--preserve-host-bits", str(cfg["B"]),
+                    "-i", os.path.join(root, "in"), "-o", os.path.join(root, "out")]
+            if cfg["private"]:
+                argv.append("--preserve-private-addresses")
+            if cfg["extra"]:
+                argv += ["--preserve-addresses", cfg["extra"]]
+            if cfg["prefixes"] is not None:
+                argv += ["--preserve-prefixes=" + cfg["prefixes"]]
+            with seams.capture_logs(), seams.capture_stdio():
+                main(argv)
+            got = (seams.read_tree(os.path.join(root, "out")).get("a.cfg") or b"").decode().splitlines()
+        finally:
+            shutil.rmtree(root, ignore_errors=True)
+        if len(got) != len(addrs):
+            res.violation("line-count|cli", "%d vs %d" % (len(got), len(addrs)), cfg)
+            return res
+        eff = []
+        for a, ln in zip(addrs, got):
+            v = refs.v4_token_value(ln.split()[1])
+            eff.append((a, -1 if v is None else v))
+        res.evals += len(eff)
+        if any(a != v for a, v in eff):
+            res.nt(json.dumps(cfg, sort_keys=True))
+        res.out(tuple(v for _, v in eff[:30]))
+        bad = check_map(eff, 32)
+        if bad:
+            res.violation("cpl-not-preserved-by-applied-mapping|cli|%s" % ("undo" if cfg["undo"] else "anonymize"),
+                          "argv %r: %s" % (argv[:5] + argv[9:], bad[1]), cfg)
+        res.samples.append({"argv": argv[:5] + argv[9:], "addresses": len(addrs)})
+        return res
+
+
 def parts(tier, seed):
     return [SmallWidth(tier, seed), FullWidth(tier, seed), LazyReal(tier, seed), StatesPart(tier, seed),
-            LongHistory(tier, seed), FilePipeline(tier, seed)]
+            LongHistory(tier, seed), FilePipeline(tier, seed), CliNetworks(tier, seed)]
